@@ -52,10 +52,8 @@ def main(tier, seed, replay):
         corr_name="corr:missing-fields (model decoders vs the readers on mutated documents: error class, field set, partial value)",
         trusted=MODELLED + anymode.ANY_TRUSTED + ["the generated client (lenient / strict) is decided by the property oracle on the implementation",
             "readers WITH excluded fields (exclusion stream of mode c06): the expected missing set is computed by an independent oracle (missingUnder) and the "
-            "cases are evaluated with the model's excl / ignore parameters; the untyped reader with excluded fields is decided by the oracle only. The model "
-            "(Codec/Decode.v lit_value) decodes a default literal under the reader's own exclusion spec whereas the generated populateLocalDefaultValues "
-            "uses a fresh reader: the two differ only when a directive matches a path inside a default literal relative to the literal's root, and "
-            "specs whose first segment is an object key of a default literal reachable from the type are therefore not generated"],
+            "cases are evaluated with the model's excl / ignore parameters; the untyped reader with excluded fields is decided by the oracle only. (Default literals are "
+            "decoded without the exclusion spec by both the generated code - a fresh NewJsonReader - and the model's lit_value.)"],
         assume=anymode.ANY_ASSUME,
         coqchk_modules=["GR." + m for m in mods],
     )
